@@ -127,7 +127,16 @@ func headLog(log []string, n int) []string {
 }
 
 // structCrashProperty: crash images of generated programs under the structural oracle only.
-func structCrashProperty(t *rapid.T, prop string, maxPts int, zeroFree bool) {
+type structCrashCfg struct {
+	Prop    string
+	MaxPts  int
+	Fsck    FsckOpts
+	After   func(s *Srv, state *Model) error
+	AfterIf func(rep *FsckReport, h uint64) bool
+}
+
+func structCrashProperty(t *rapid.T, sc structCrashCfg) {
+	prop, maxPts := sc.Prop, sc.MaxPts
 	size := uint64(rapid.IntRange(2600, 5200).Draw(t, "disksize"))
 	unstable := rapid.IntRange(0, 3).Draw(t, "unstable") > 0
 	salt := rapid.Uint64().Draw(t, "salt")
@@ -229,17 +238,29 @@ func structCrashProperty(t *rapid.T, prop string, maxPts int, zeroFree bool) {
 	progHash := Hash(x.Log, size, unstable)
 	var nNT, nHalf int64
 	n, fail := ExploreCrashes(cr.D, pts, salt, 1, func(img *Disk, c CrashCase) error {
+		h := Hash(progHash, c.K, c.VarIdx)
+		var rep0 *FsckReport
 		opts := ImageOpts{NoPrefixOracle: true, Fsck: func(s *Srv) (*FsckReport, error) {
-			r := Fsck(s.N.VerifFsState(), FsckOpts{ZeroFree: zeroFree, Allocators: true})
+			r := Fsck(s.N.VerifFsState(), sc.Fsck)
+			rep0 = r
 			return r, r.Err()
 		}}
+		if sc.After != nil {
+			opts.After = func(s *Srv, state *Model) error {
+				if sc.AfterIf != nil && !sc.AfterIf(rep0, h) {
+					return nil
+				}
+				St.Class("recovered_images_emptied_and_counted")
+				return sc.After(s, state)
+			}
+		}
 		_, rep, err := cr.CheckImage(img, c.K, opts)
 		if err != nil {
 			return err
 		}
 		if rep != nil && (rep.HalfFreed > 0 || (rep.NDirs >= 3 && rep.NIndirect >= 1)) {
 			atomic.AddInt64(&nNT, 1)
-			St.NT(Hash(progHash, c.K, c.VarIdx))
+			St.NT(h)
 			if rep.HalfFreed > 0 {
 				atomic.AddInt64(&nHalf, 1)
 			}
@@ -266,7 +287,9 @@ func TestC04Crash(t *testing.T) {
 	if Thorough() {
 		maxPts = 1 << 30
 	}
-	rapid.Check(t, func(t *rapid.T) { structCrashProperty(t, "C04", maxPts, false) })
+	rapid.Check(t, func(t *rapid.T) {
+		structCrashProperty(t, structCrashCfg{Prop: "C04", MaxPts: maxPts, Fsck: FsckOpts{Allocators: true}})
+	})
 }
 
 var _ = common.ROOTINUM
